@@ -37,12 +37,12 @@ TEXTS = {
         "technique": "runtime monitoring of the writer's output structure with an independent decoder (size-steered boundary inputs)",
     },
     "C07": {
-        "level_text": "Differential runtime monitor: the library's tile_id/zxy are compared in both directions with the specification's rotate/flip Hilbert algorithm for every id of zooms 0..13 (quick) / 0..15 (thorough) plus boundary and random points at every zoom and u64 ids beyond zoom 31; structural clauses (adjacency, zoom blocks, children blocks) are asserted on the library's own outputs; coordinate lookups outside the grid (z up to 255) run against archives holding the aliased tile and must answer None/Err without panicking (overflow checks on).",
+        "level_text": "Differential runtime monitor: the library's tile_id/zxy are compared in both directions with the specification's rotate/flip Hilbert algorithm for every id of zooms 0..13 (quick) / 0..16 (thorough) plus boundary and random points at every zoom and u64 ids beyond zoom 31; structural clauses (adjacency, zoom blocks, children blocks) are asserted on the library's own outputs; coordinate lookups outside the grid (z up to 255) run against archives holding the aliased tile and must answer None/Err without panicking (overflow checks on).",
         "level_note": "Trusted: the reference Hilbert implementation (self-tested against the spec's published vectors). Zooms above the exhaustive bound are sampled, not enumerated.",
         "technique": "differential runtime monitoring against the spec's Hilbert algorithm, exhaustive to a zoom bound, + panic/overflow observer on lookups",
     },
     "C08": {
-        "level_text": "Crash observer under hostile inputs: a crafted corpus (>=1 archive per hazard class x 4 codecs: huge entry counts, overflowing id/offset sums, zero first offset, offsets near 2^64, self/2-cycle/wide-cycle pointers, chains up to 10^5 links, oversized lengths, bad metadata, wrong/garbage codec streams), every prefix and single-byte boundary substitution of small valid archives, and 2*10^5 (quick) / 4*10^6 (thorough) structure-aware mutations are fed to the header/directory/archive readers (sync+async), then lookups, partial opens, read_directories and a re-write run on whatever opened. Observed: panics (overflow checks on in the crate under test), worker death (stack overflow, allocation failure under a 12 GiB limit; attributed to the exact case via a progress file) and logical stream-operation budgets. Thorough adds a stock-release pass, an ASan pass (zstd C code instrumented) and a Miri pass on the codec-free subset.",
+        "level_text": "Crash observer under hostile inputs: a crafted corpus (>=1 archive per hazard class x 4 codecs: huge entry counts, overflowing id/offset sums, zero first offset, offsets near 2^64, self/2-cycle/wide-cycle pointers, chains up to 10^5 links, oversized lengths, bad metadata, wrong/garbage codec streams), every prefix and single-byte boundary substitution of small valid archives, and 2*10^5 (quick) / 1.2*10^7 (thorough) structure-aware mutations are fed to the header/directory/archive readers (sync+async), then lookups, partial opens, read_directories and a re-write run on whatever opened. Observed: panics (overflow checks on in the crate under test), worker death (stack overflow, allocation failure under a 12 GiB limit; attributed to the exact case via a progress file) and logical stream-operation budgets. Thorough adds a stock-release pass, an ASan pass (zstd C code instrumented) and a Miri pass on the codec-free subset.",
         "level_note": "Trusted: the lenient expansion estimator that puts inputs expanding past 2*10^6 tiles / 10^5 directory visits outside the claim. A loop that performs no I/O at all is only caught by the (inconclusive) watchdog. Clean sanitizer runs cover only the reached code.",
         "technique": "runtime monitoring with a panic/abort/overflow observer under crafted, exhaustive-small and structure-aware mutated inputs; ASan + Miri layers in thorough",
     },
@@ -67,7 +67,7 @@ TEXTS = {
         "technique": "differential runtime monitoring of async twins against sync twins under Pending and short transfers",
     },
     "C13": {
-        "level_text": "Schedule-imposing monitor: stream wrappers impose transfer-size schedules (>=1 byte) and Pending patterns on one task; EVERY composition of n<=16 (quick) / 20 (thorough) bytes for None-encoded directories on read and write, every fixed chunk size / two-part split / random compositions for codec directories and headers, fixed chunks {1,2,3,7,64,4096} and random schedules on whole archives incl. leaf-spilling ones in 4 codecs, sync and async, and every Pending pattern over the first 12 polls; results must equal the unfragmented twin (values for readers, bytes for writers).",
+        "level_text": "Schedule-imposing monitor: stream wrappers impose transfer-size schedules (>=1 byte) and Pending patterns on one task; EVERY composition of n<=16 (quick) / 22 (thorough) bytes for None-encoded directories on read and write, every fixed chunk size / two-part split / random compositions for codec directories and headers, fixed chunks {1,2,3,7,64,4096} and random schedules on whole archives incl. leaf-spilling ones in 4 codecs, sync and async, and every Pending pattern over the first 12 polls; results must equal the unfragmented twin (values for readers, bytes for writers).",
         "level_note": "Trusted: the instrumented streams (self-tested against std Cursor). Seeks are not fragmented and Interrupted is not injected (the property's schedule space).",
         "technique": "runtime monitoring under imposed fragmentation/Pending schedules (exhaustive for small inputs) against the unfragmented twin",
     },
